@@ -201,7 +201,7 @@ class Facts(object):
         I = P.interp
         cref = I.get_global('finite_difference', rule_cls)
         log = self.nuse_log
-        kw = dict(method=method, order=TInt(order, 'order', log))
+        kw = dict(method=method, order=TInt(order, 'order', log) if order is not None else None)
         if n is not None:
             kw['n'] = TInt(n, 'n', log)
         out = {'class': rule_cls, 'method': method, 'n_arg': n, 'order_arg': order}
